@@ -209,7 +209,10 @@ func (s *Sim) Check() bool {
 	if !s.aborted {
 		return false
 	}
-	if t := s.cur; t != nil && t.daemon && !t.exiting && t.started {
+	// the run is over: whoever reaches a simulated operation is torn down here (its deferred
+	// calls run and see no-ops). Callers too, not only daemons: a hand-written spin lock
+	// would otherwise wait forever for a holder that is parked and will never run again.
+	if t := s.cur; t != nil && !t.exiting && t.started {
 		t.exiting = true
 		runtime.Goexit()
 	}
@@ -232,6 +235,20 @@ func Go(f func()) {
 	}
 	s.spawn(f, s.cur)
 	s.Yield(KGo, len(s.tasks)-1)
+}
+
+// ClearPending forgets goroutines started outside a run so far (the harness calls it before
+// re-initialising the packages, so that exactly one initialisation's goroutines join a run).
+func ClearPending() { pendingInit = nil }
+
+// Gosched is the stand-in for runtime.Gosched: a polite yield.
+func Gosched() {
+	s := Cur
+	if s == nil || s.Check() {
+		return
+	}
+	s.YieldHint()
+	s.Yield(KOther, 0)
 }
 
 // GoFromTimer starts f as a daemon task from a timer callback (no parent clock: a timer
